@@ -6,7 +6,8 @@ EXTENDS Discv5, Json
 
 CONSTANTS Depth,        \* length of the printed behaviours (simulation mode)
           Senders,      \* nodes that originate packets (the others only receive redirected packets)
-          Guided        \* TRUE: prune uninformative branching (sampling); FALSE: everything (exhaustive MC)
+          Guided,       \* TRUE: prune uninformative branching (sampling); FALSE: everything (exhaustive MC)
+          Spoof         \* TRUE: the network also forges source addresses
 
 VARIABLES hist,         \* actions so far, with the predicted outcomes
           seen          \* wire indices delivered at least once (guides sampling only)
@@ -35,10 +36,12 @@ MCNext ==
         /\ hist' = Append(hist, A("hs", n, p, m, Len(wire) + 1, "", IF got[n][p].rs THEN "norecord" ELSE "record")) /\ UNCHANGED seen
   \/ \E n, p \in Senders : Len(wire) < MaxWire /\ MaySend /\ SendWhoareyou(n, p)
         /\ hist' = Append(hist, A("way", n, p, "", Len(wire) + 1, "", IF knows[n][p] THEN "known" ELSE "unknownnode")) /\ UNCHANGED seen
-  \/ \E i \in 1..Len(wire), t \in {"iv", "nonce", "src", "idn", "sig", "ct"} : Len(wire) < MaxWire /\ Recent(i) /\ MaySend /\ Tamper(i, t)
+  \/ \E i \in 1..Len(wire), t \in {"iv", "ver", "nonce", "src", "idn", "sig", "ct"} : Len(wire) < MaxWire /\ Recent(i) /\ MaySend /\ Tamper(i, t)
         /\ hist' = Append(hist, A("tamper", "", "", "", i, t, "")) /\ UNCHANGED seen
-  \/ \E i \in 1..Len(wire), to \in Node : MayDeliver(i, to) /\ Deliver(i, to) /\ seen' = seen \cup {i}
-        /\ hist' = Append(hist, A("deliver", to, wire[i].src, wire[i].m, i, "", Outcome(to, wire[i])))
+  \/ \E i \in 1..Len(wire), to, from \in Node :
+        /\ MayDeliver(i, to) /\ (from = wire[i].src \/ (Spoof /\ (~Guided \/ i = Len(wire))))   \* guided: only the newest is spoofed
+        /\ Deliver(i, to, from) /\ seen' = seen \cup {i}
+        /\ hist' = Append(hist, A("deliver", to, from, wire[i].m, i, "", Outcome(to, wire[i], from)))
   \/ \E n \in Senders : HasState(n) /\ Reset(n) /\ hist' = Append(hist, A("reset", n, "", "", 0, "", "")) /\ UNCHANGED seen
   \/ \E n \in Senders : HasState(n) /\ Expire(n) /\ hist' = Append(hist, A("expire", n, "", "", 0, "", "")) /\ UNCHANGED seen
 
